@@ -56,6 +56,72 @@ SRC_SPECS = [
          attrs={'self.mixProfile': ('mixProfile', 'arr2'), 'self.mu_profile': ('mu_profile', 'arr')},
          state=['self.mu_profile'], elem_funcs={'self.get_molecular_mass': ('massAt', 's')},
          not_none=['self.mixProfile']),
+    # ---- dialect 'seq' (harness/translate_seq.py): arrays as lists of run-time length, Python ints, general slices, the
+    # shape tests numpy makes at run time as `Except.error "ValueError"`
+    dict(module='taurex/util/util.py', func='movingaverage', lean='movingaverage', dialect='seq',
+         params=dict(a='list', n='int'), raises=True),
+    # the @property getters TwoLayerGas.initialize_profile reads
+    dict(module=_CDIR + 'gas/twolayergas.py', cls='TwoLayerGas', func='mixRatioSurface', getter=True, prop=True,
+         callname='self.mixRatioSurface', lean='two_layer_mixRatioSurface', dialect='seq', params={},
+         attrs={'self._mix_surface': ('mix_surface', 's')}),
+    dict(module=_CDIR + 'gas/twolayergas.py', cls='TwoLayerGas', func='mixRatioTop', getter=True, prop=True,
+         callname='self.mixRatioTop', lean='two_layer_mixRatioTop', dialect='seq', params={},
+         attrs={'self._mix_top': ('mix_top', 's')}),
+    # the WHOLE TwoLayerGas.initialize_profile: argmin of |P - P_boundary|, int(...) layer window with max / min, node
+    # lists, np.interp in log P (external `interp x xp fp`, mapped over the abscissae), odd smoothing window, movingaverage
+    # of log10, border, slice store into the view `self._mix_profile` of chemprofile
+    dict(module=_CDIR + 'gas/twolayergas.py', cls='TwoLayerGas', func='initialize_profile', lean='two_layer_gas',
+         dialect='seq', params=dict(nlayers='nat', temperature_profile='skip', pressure_profile='list',
+                                    altitude_profile='skip'),
+         attrs={'self._mix_ratio_smoothing': ('smoothing', 's'), 'self._mix_ratio_pressure': ('mix_pressure', 's'),
+                'self._mix_profile': ('mix_profile', 'list'), 'self._mix_surface': ('mix_surface', 's'),
+                'self._mix_top': ('mix_top', 's')},
+         state=['self._mix_profile'], raises=True,
+         vexternals={'np.interp': dict(lean='interp', args=['s*', 'list', 'list'], ret='s')}),
+    # ArrayGas.initialize_profile (nlayers given): np.linspace / np.interp externals
+    dict(module=_CDIR + 'gas/arraygas.py', cls='ArrayGas', func='initialize_profile', lean='array_gas', dialect='seq',
+         params=dict(nlayers='nat', temperature_profile='skip', pressure_profile='skip', altitude_profile='skip'),
+         attrs={'self._mix_ratio_array': ('mix_ratio_array', 'list'), 'self._mix_array': ('mix_array', 'list')},
+         state=['self._mix_array'],
+         vexternals={'np.interp': dict(lean='interp', args=['s*', 'list', 'list'], ret='s'),
+                     'np.linspace': dict(lean='linspace', args=['s', 's', 'nat'], ret='list')}),
+    # AutoChemistry.determine_active_inactive (TaurexChemistry calls it from __init__ and addGas): the names and positions
+    # of the gases that are / are not in `availableActive`; `self.gases` and `self.availableActive` are read-only
+    # properties (lists of names).  Result: (_active, _active_mask, _inactive, _inactive_mask), a mask is None when empty
+    dict(module=_CDIR + 'autochemistry.py', cls='AutoChemistry', func='determine_active_inactive',
+         lean='determine_active_inactive', dialect='seq', params={},
+         attrs={'self.gases': ('gases', 'strlist'), 'self.availableActive': ('availableActive', 'strlist'),
+                'self._active': ('active', 'strlist'), 'self._active_mask': ('active_mask', ('optl', 'natlist')),
+                'self._inactive': ('inactive', 'strlist'), 'self._inactive_mask': ('inactive_mask', ('optl', 'natlist'))},
+         state=['self._active', 'self._active_mask', 'self._inactive', 'self._inactive_mask']),
+    # Chemistry.__init__: the molecules that count as absorbing = the registered opacity data (cross-sections or
+    # k-tables, by the global option) minus the `deactive_molecules` option.  The caches and GlobalCache are externals
+    dict(module=_CDIR + 'chemistry.py', cls='Chemistry', func='__init__', lean='chemistry_init', dialect='seq',
+         params=dict(name='skip'), state=['self._avail_active'],
+         ignore_calls=_LOG + r'|^(Logger|Fittable)\.__init__\(',
+         b_externals={"GlobalCache()['opacity_method'] == 'ktables'": 'ktables'},
+         t_externals={'KTableCache().find_list_of_molecules()': ('ktableMolecules', 'strlist'),
+                      'OpacityCache().find_list_of_molecules()': ('opacityMolecules', 'strlist'),
+                      "GlobalCache()['deactive_molecules']": ('deactive', ('optl', 'strlist'))}),
+    # the WHOLE PowerGas.initialize_profile: the coefficient look-up (a constructor argument left None is taken from the
+    # tuple `self.check_known(...)` returns — an external: four optional numbers —, ValueError when that is None too) and the
+    # formula; np.power(P, alpha) is the external `rpow`; 1e-5 is the parameter `c1em05`
+    dict(module=_CDIR + 'gas/powergas.py', cls='PowerGas', func='initialize_profile', lean='power_gas_full', dialect='seq',
+         params=dict(nlayers='nat', temperature_profile='list', pressure_profile='list', altitude_profile='skip'),
+         attrs={'self._mix_profile': ('mix_profile', 'list'), 'self._profile_type': ('profile_type', 'str'),
+                'self._mix_surface': ('mix_surface', 'opt'), 'self._alpha': ('alpha', 'opt'),
+                'self._beta': ('beta', 'opt'), 'self._gamma': ('gamma', 'opt')},
+         state=['self._mix_profile'], raises=True, externals={'**': ('rpow', 2)},
+         vexternals={'self.check_known(molecule_name)': dict(lean='checkKnown', args=['str'],
+                                                             ret=('tuple', ('opt', 'opt', 'opt', 'opt')))}),
+    # the same with the option given as ONE bare string (it names that molecule)
+    dict(module=_CDIR + 'chemistry.py', cls='Chemistry', func='__init__', lean='chemistry_init_str', dialect='seq',
+         params=dict(name='skip'), state=['self._avail_active'],
+         ignore_calls=_LOG + r'|^(Logger|Fittable)\.__init__\(',
+         b_externals={"GlobalCache()['opacity_method'] == 'ktables'": 'ktables'},
+         t_externals={'KTableCache().find_list_of_molecules()': ('ktableMolecules', 'strlist'),
+                      'OpacityCache().find_list_of_molecules()': ('opacityMolecules', 'strlist'),
+                      "GlobalCache()['deactive_molecules']": ('deactive', 'str')}),
 ]
 
 RULE = ('real TaurexChemistry with 1-4 fill gases (random ratios 1e-6..2) and 0-5 trace gases drawn from all five '
@@ -79,7 +145,16 @@ ASSUMPTIONS = [
     'source tie (Props/C10Src.lean): gas.mixProfile after gas.initialize_profile(...) is a profile of nlayers entries '
     '(parameter gasMix); x + 0 = x for the `mixratio_remainder += np.zeros(nlayers)` step; initialize_chemistry is tied '
     'up to the row list mix_profile (np.vstack and the base-class call that runs compute_mu_profile come after); '
-    'PowerGas is tied from `P = pressure_profile*1e-5` on (coefficients already resolved)',
+    'PowerGas is tied from `P = pressure_profile*1e-5` on (coefficients already resolved) and as a whole (power_gas_full: '
+    'the look-up of the coefficients left None in the tuple check_known returns — an input of the tie — then the formula; '
+    'Chemistry.powerGasAuto, compared with the real PowerGas through the op c10.gasauto)',
+    'source tie, dialect seq (movingaverage, TwoLayerGas, ArrayGas, determine_active_inactive, Chemistry.__init__): '
+    'np.interp(x, xp, fp) is evaluated abscissa by abscissa; int(x) truncates toward zero and the model truncNat is its '
+    'non-negative part; the smoothing window is not negative and nlayers >= 1; int(k/2) = k//2 for k >= 0; np.cumsum '
+    'accumulates from the left; the cumsum trick equals the window means exactly over the reals (rounding on floats); '
+    'a.argmin() is the FIRST minimum; self.gases / self.availableActive are read-only properties; zip(*L) of an empty '
+    'list raises ValueError at the unpacking; OpacityCache / KTableCache / GlobalCache are inputs; deactive_molecules is '
+    'None, a list of names, or one bare string',
 ]
 
 FILL_POOL = ['H2', 'He', 'N2', 'CO2', 'H2O', 'O2']
@@ -344,9 +419,17 @@ def gen_case(rng, k):
         cand = registered + everything
         deactive = sorted({str(cand[int(rng.integers(0, len(cand)))]) for _ in range(int(rng.integers(0, 3)))}) \
             if cand else []
+    # quota: ONE deactivated molecule, handed over as the bare string an input file yields ([Global] deactive_molecules =
+    # CO2); picked, when possible, so that its name contains the name of another molecule with opacity data (CO2/CO,
+    # H2O/H2, ...): it must switch off exactly the molecule named
+    deactive_as_str = False
+    if k % 6 == 3 and registered:
+        subs = [a for a in registered if any(b != a and b in a for b in registered + everything)]
+        deactive = [str(rng.choice(subs if subs else registered))]
+        deactive_as_str = True
     temperature = [float(x) for x in rng.uniform(400, 3500, size=n)]
     c = dict(nlayers=n, pressure=ps, temperature=temperature, fill_gases=fills, ratio=ratios, gases=gases,
-             registered=registered, deactive=deactive, region=region,
+             registered=registered, deactive=deactive, deactive_as_str=deactive_as_str, region=region,
              ratio_as_float=bool(rng.random() < 0.5), fill_as_str=bool(rng.random() < 0.5))
     if region in ('free', 'above', 'near') and rng.random() < 0.35:
         c['update'] = gen_update(rng, c)
@@ -451,9 +534,34 @@ def apply_update(c, chem):
     return c2
 
 
+def _opt(x):
+    return '0' if x is None else '1 ' + C.F(float(x))
+
+
+def power_auto(ctx, go, n, T, P, case):
+    """PowerGas.initialize_profile INCLUDING the look-up of the coefficients left None, against Chemistry.powerGasAuto;
+    inputs: the object's current constructor attributes and the tuple its check_known returns"""
+    known = go.check_known(molecule_name=go._profile_type)
+    try:
+        go.initialize_profile(n, T, P, None)
+        impl, prof = 'ok', np.array(go.mixProfile, float)
+    except ValueError:
+        impl, prof = 'error', None
+    d = ctx.model().call('c10.gasauto', _opt(go._mix_surface), _opt(go._alpha), _opt(go._beta), _opt(go._gamma),
+                         _opt(known[0]), _opt(known[1]), _opt(known[2]), _opt(known[3]), C.F(1e-5), C.L(P), C.L(T))
+    tag = d.nat()
+    ctx.check_eq('PowerGas outcome (ok / ValueError) vs Chemistry.powerGasAuto', impl, ['ok', 'invalid', 'error'][tag],
+                 case)
+    if tag == 0 and impl == 'ok':
+        ctx.check_close('PowerGas.mixProfile (coefficient look-up) vs Chemistry.powerGasAuto', prof, d.list(), case,
+                        rel=1e-10, abs_=1e-300)
+
+
 def eval_case(ctx, c):
     quiet()
-    install(c['registered'], c['deactive'])
+    install(c['registered'], c['deactive'][0] if (c.get('deactive_as_str') and c['deactive']) else c['deactive'])
+    if c.get('deactive_as_str'):
+        ctx.bucket('deactive_molecules:bare-string')
     try:
         st = {}
         judge(ctx, c, dict(c), st)
@@ -517,6 +625,10 @@ def judge(ctx, c, small, st):
                 rows_ok = False
         if len(gas_objs) != len(gases):
             rows_ok = False
+        if rows_ok:
+            for g, go in zip(gases, gas_objs):
+                if g['kind'] == 'power':
+                    power_auto(ctx, go, n, T, P, small)
         total = np.zeros(n)
         if rows_ok:
             for r in rows:
@@ -746,6 +858,7 @@ def malformed(ctx):
                 P = make_pressure(c['pressure'])
                 g = make_gas(dict(mol='CH4', kind='power', profile_type='auto', mix_ratio_surface=None, alpha=None,
                                   beta=None, gamma=None))
+                power_auto(ctx, g, n, np.full(n, 1500.0), P, dict(tag=tag, nlayers=n))
                 g.initialize_profile(n, np.full(n, 1500.0), P, None)
                 out = 'accepted'
         except Exception as e:
